@@ -87,8 +87,8 @@ class Check(PropertyCheck):
             "configurations, and random 2-4 request sequences) with requests carrying the old password, the new one, none, or the "
             "cookie obtained before the change - each request judged by the configuration in force at that time. distinct = "
             "distinct tuple / sequence; non-trivial = all.")
-    budget = {"quick": 12000, "thorough": 400000}
-    time_budget = {"quick": 35, "thorough": 700}
+    budget = {"quick": 8000, "thorough": 400000}
+    time_budget = {"quick": 25, "thorough": 700}
     fingerprints = ["mitmproxy.tools.web.app:AuthRequestHandler.__init_subclass__", "mitmproxy.tools.web.app:AuthRequestHandler._require_auth",
                     "mitmproxy.tools.web.app:AuthRequestHandler.get_current_user", "mitmproxy.tools.web.app:RequestHandler.prepare",
                     "mitmproxy.tools.web.app:WebSocketEventBroadcaster.prepare", "mitmproxy.tools.web.app:Application.__init__",
